@@ -73,67 +73,94 @@ Definition cy_type_dirs (t : ext_type) : list directive :=
   | EEnum _ _ d _ _ | EInput _ _ d _ _ => map c_val d
   end.
 
-(* directive_definition / input_value (the loop over a list of input value definitions); `directive`,
-   `directives`, `enum_value` and `type_definition` are the local functions, in the code's order:
-   first the directives of the input value, then its type *)
+(* One level of the mutually recursive functions of FindRecursiveDirective; `rec dg tg ivs` is the
+   recursive call "for input_value in ivs { self.input_value(dg, tg, input_value)? }" (directive_definition
+   for a directive's arguments, the field loop of type_definition for an input object).  Both stacks are
+   passed down explicitly: the callee gets the extended stack, the caller keeps its own (push + drop). *)
+Section CyDirLevel.
+  Context (s : schema) (limit : nat) (rec : list str -> list str -> list inputvaldef -> cy_res).
+
+  (* fn directive *)
+  Definition cy_on_directive (dg tg : list str) (d : directive) : cy_res :=
+    if negb (cy_mem (d_name d) dg) then
+      match sch_find_dirdef (d_name d) (sch_dirdefs s) with
+      | Some def =>
+          let dg' := dg ++ [d_name d] in
+          if Nat.ltb limit (length dg') then CyLimit           (* directive_guard.push(..)? *)
+          else rec dg' tg (dd_args def)                         (* fn directive_definition *)
+      | None => CyOk
+      end
+    else if cy_first_is dg (d_name d) then CyRecursed
+         else CyOk.
+
+  (* fn directives, and the loops over an input value's / enum value's directives *)
+  Fixpoint cy_on_directives (dg tg : list str) (l : list directive) : cy_res :=
+    match l with
+    | [] => CyOk
+    | d :: r =>
+        match cy_on_directive dg tg d with
+        | CyOk => cy_on_directives dg tg r
+        | CyRecursed => CyRecursed | CyLimit => CyLimit | CyFuel => CyFuel
+        end
+    end.
+
+  (* the loop over enum values calling fn enum_value *)
+  Fixpoint cy_on_enum_values (dg tg : list str) (l : list (comp enumvaldef)) : cy_res :=
+    match l with
+    | [] => CyOk
+    | v :: r =>
+        match cy_on_directives dg tg (ev_dirs (c_val v)) with
+        | CyOk => cy_on_enum_values dg tg r
+        | CyRecursed => CyRecursed | CyLimit => CyLimit | CyFuel => CyFuel
+        end
+    end.
+
+  (* fn type_definition *)
+  Definition cy_type_definition (dg tg : list str) (t : ext_type) : cy_res :=
+    match cy_on_directives dg tg (cy_type_dirs t) with
+    | CyOk =>
+        match t with
+        | EEnum _ _ _ vs _ => cy_on_enum_values dg tg vs
+        | EInput _ _ _ fs _ => rec dg tg (map c_val fs)
+        | _ => CyOk
+        end
+    | CyRecursed => CyRecursed | CyLimit => CyLimit | CyFuel => CyFuel
+    end.
+
+  (* the second half of fn input_value: the type of the input value *)
+  Definition cy_on_type (dg tg : list str) (iv : inputvaldef) : cy_res :=
+    match sch_get_type s (inner_named_type (iv_ty iv)) with
+    | Some t =>
+        if cy_mem (et_name t) tg then CyOk                      (* input type was already processed *)
+        else if negb (et_builtin t) then
+               let tg' := tg ++ [et_name t] in
+               if Nat.ltb limit (length tg') then CyLimit        (* type_guard.push(..)? *)
+               else cy_type_definition dg tg' t
+             else cy_type_definition dg tg t
+    | None => CyOk
+    end.
+
+  (* "for input_value in ..": fn input_value = directives first, then the type *)
+  Fixpoint cy_ivd_loop (dg tg : list str) (ivs : list inputvaldef) : cy_res :=
+    match ivs with
+    | [] => CyOk
+    | iv :: r =>
+        match cy_on_directives dg tg (iv_dirs iv) with
+        | CyOk =>
+            match cy_on_type dg tg iv with
+            | CyOk => cy_ivd_loop dg tg r
+            | CyRecursed => CyRecursed | CyLimit => CyLimit | CyFuel => CyFuel
+            end
+        | CyRecursed => CyRecursed | CyLimit => CyLimit | CyFuel => CyFuel
+        end
+    end.
+End CyDirLevel.
+
 Fixpoint cy_dir_ivds (s : schema) (limit : nat) (fuel : nat) (dg tg : list str)
   (ivs : list inputvaldef) {struct fuel} : cy_res :=
   match fuel with
   | O => CyFuel
-  | S k =>
-      let on_directive (d : directive) : cy_res :=
-        if negb (cy_mem (d_name d) dg) then
-          match sch_find_dirdef (d_name d) (sch_dirdefs s) with
-          | Some def =>
-              let dg' := dg ++ [d_name d] in
-              if Nat.ltb limit (length dg') then CyLimit
-              else cy_dir_ivds s limit k dg' tg (dd_args def)
-          | None => CyOk
-          end
-        else if cy_first_is dg (d_name d) then CyRecursed
-             else CyOk in
-      let on_directives :=
-        fix ds (l : list directive) : cy_res :=
-          match l with
-          | [] => CyOk
-          | d :: r => match on_directive d with CyOk => ds r | CyRecursed => CyRecursed | CyLimit => CyLimit | CyFuel => CyFuel end
-          end in
-      let type_definition (tg' : list str) (t : ext_type) : cy_res :=
-        match on_directives (cy_type_dirs t) with
-        | CyOk =>
-            match t with
-            | EEnum _ _ _ vs _ =>
-                (fix vals (l : list (comp enumvaldef)) : cy_res :=
-                   match l with
-                   | [] => CyOk
-                   | v :: r => match on_directives (ev_dirs (c_val v)) with CyOk => vals r | CyRecursed => CyRecursed | CyLimit => CyLimit | CyFuel => CyFuel end
-                   end) vs
-            | EInput _ _ _ fs _ => cy_dir_ivds s limit k dg tg' (map c_val fs)
-            | _ => CyOk
-            end
-        | CyRecursed => CyRecursed | CyLimit => CyLimit | CyFuel => CyFuel
-        end in
-      (fix loop (ivs : list inputvaldef) : cy_res :=
-         match ivs with
-         | [] => CyOk
-         | iv :: r =>
-             match on_directives (iv_dirs iv) with
-             | CyOk =>
-                 let res :=
-                   match sch_get_type s (inner_named_type (iv_ty iv)) with
-                   | Some t =>
-                       if cy_mem (et_name t) tg then CyOk          (* input type was already processed *)
-                       else if negb (et_builtin t) then
-                              let tg' := tg ++ [et_name t] in
-                              if Nat.ltb limit (length tg') then CyLimit
-                              else type_definition tg' t
-                            else type_definition tg t
-                   | None => CyOk
-                   end in
-                 match res with CyOk => loop r | CyRecursed => CyRecursed | CyLimit => CyLimit | CyFuel => CyFuel end
-             | CyRecursed => CyRecursed | CyLimit => CyLimit | CyFuel => CyFuel
-             end
-         end) ivs
+  | S k => cy_ivd_loop s limit (cy_dir_ivds s limit k) dg tg ivs
   end.
 
 (* FindRecursiveDirective::check; both stacks are bounded by the limit, so 2 * limit + 3 nested calls
